@@ -49,6 +49,10 @@ def gen(seed, tier):
     noids = r.choice((1, 2, 3, 5))
     n = r.randint(3, 12) if tier == 'quick' else r.randint(3, 16)
     ops = []
+    # an object keeps its class (objects that change class between
+    # revisions are not generated)
+    cls_of = [r.choice(('Cell', 'Merge', 'Merge', 'Boom'))
+              for _ in range(noids)]
     for _ in range(n):
         x = r.random()
         if x < 0.45:
@@ -56,6 +60,7 @@ def gen(seed, tier):
                            classes=('Cell', 'Merge', 'Merge', 'Boom'),
                            refs=False, sizes=(0, 0, 10, 200))
             for rec in op['recs']:
+                rec['cls'] = cls_of[rec['o'] % noids]
                 if rec.get('serial') in ('bogus', 'zero', 'stale2'):
                     rec.pop('serial')
             ops.append(op)
